@@ -372,7 +372,12 @@ class NestedTextRenderer(Renderer):
         ret = []
         for decoded_node in decoded_nodes:
             if isinstance(decoded_node, NoValueDataNode):
-                ret.append('{}{}'.format(indent, decoded_node))
+                if isinstance(decoded_node.descriptor, ElementDescriptor):
+                    # An element with no data present (221YYY). Show it as a comment so
+                    # that it is not taken for a line with a value when converting back.
+                    ret.append('{}# {} (data not present)'.format(indent, decoded_node))
+                else:
+                    ret.append('{}{}'.format(indent, decoded_node))
 
                 if isinstance(decoded_node, SequenceNode):
                     ret.extend(
